@@ -50,7 +50,7 @@ def gen_case(rng, thorough):
     if region_c:
         window = rng.choice([1, 1, 2])
         penalty = rng.choice([None, 0.0])        # the compact search is compared with the model without penalty
-    only_triu = True if self_cmp and rng.random() < 0.8 else (rng.random() < 0.2)
+    only_triu = True if self_cmp and rng.random() < 0.5 else (rng.random() < 0.2)
     calls = []
     if region_c:
         calls.append({"k": None, "minlen": rng.choice([1, 2]), "restart": True})
@@ -217,6 +217,11 @@ def run(ctx):
                                        "got": lcres["error"]})
                 continue
             compact = engine == "c_compact"
+            # the matrix the LocalConcurrences object built from its own arguments (self-comparison, only_triu, window,
+            # penalty are passed through its constructor) is the matrix of the recurrence for the REQUESTED options
+            if not compare_matrix(res, c, "LocalConcurrences(%s) matrix" % engine, lcres["start"], model):
+                continue
+            res.hit("lc_matrix_compared")
             if not check_matches(res, c, engine, lcres, compact):
                 continue
             if compact and c["penalty"]:
